@@ -7,11 +7,13 @@ Definition predict (t : list item) (m : meshgl) (o : oracle) : verdict * option 
   let '(v, a) := run t m o (st0 m) in (v, first_oob a).
 Definition current_table : list item := Gen.Ladder.table.
 Definition table_safe_current : bool := ladder_table_safe Gen.Ladder.table.
+Definition table_safe_strong_current : bool := ladder_table_safe_strong Gen.Ladder.table.
+Definition unsafe_weak_current : list item := filter (fun it => match it with IPost _ => false | _ => true end) (unsafe_items facts0 Gen.Ladder.table).
 Definition unsafe_current : list item := unsafe_items facts0 Gen.Ladder.table.
 Definition status_ok_current : bool := status_table_ok Gen.Status.methods Gen.Status.internal.
 Definition status_bad_current : list (String.string * fwd) :=
   filter (fun nk => negb (kind_ok (snd nk))) Gen.Status.methods.
 
 Extraction "../build/ml/c09_model.ml" predict current_table patched_table pinned_table
-  table_safe_current unsafe_current status_ok_current status_bad_current error_code
+  table_safe_current table_safe_strong_current unsafe_weak_current unsafe_current status_ok_current status_bad_current error_code
   Z.add Z.mul.
